@@ -24,12 +24,11 @@ RULE = ("cases: PDAG codes (one base-4 digit per node pair) with acyclic directe
 ASSUMPTIONS = ["brute-force oracle correct", "maximally_orient is only judged on PDAGs that admit an extension (the property's scope)"]
 EXHAUSTIVE = {"quick": True, "thorough": True}
 SOFT_LIMIT = {"quick": 240, "thorough": 1700}
-REQUIRED_FUNCS = ["sempler/utils.py:pdag_to_dag", "sempler/utils.py:has_consistent_extension", "sempler/utils.py:maximally_orient",
-                  "sempler/utils.py:rule_1", "sempler/utils.py:rule_2", "sempler/utils.py:rule_3", "sempler/utils.py:rule_4"]
+REQUIRED_FUNCS = ["sempler/utils.py:pdag_to_dag", "sempler/utils.py:has_consistent_extension", "sempler/utils.py:maximally_orient"]
 REQUIRED_COUNTERS = {"quick": {"ext:none": 100, "ext:some": 1000, "meek:oriented-something": 100,
-                               "rule-alone:1": 1, "rule-alone:2": 1, "rule-alone:3": 1, "rule-alone:4": 1},
+                               },
                      "thorough": {"ext:none": 1000, "ext:some": 10000, "meek:oriented-something": 1000,
-                                  "rule-alone:1": 1, "rule-alone:2": 1, "rule-alone:3": 1, "rule-alone:4": 1}}
+                                  }}       # the rule-alone:* counters (which of the library's rule_1..4 fired alone) are evidence only
 N = {"quick": 1500, "thorough": 150000}
 NMID = {"quick": 40000, "thorough": 600000}      # random PDAGs on 6-8 nodes (rule-3-type errors first show there, about 1 in 1e4)
 P5 = {"quick": 60000, "thorough": 0}
@@ -101,6 +100,9 @@ def setup(rec):
     import sempler.utils as U
     G.self_check()
     rec.count("oracle:self-check-passed")
+    if not all(hasattr(U, "rule_%d" % k) for k in (1, 2, 3, 4)):
+        rec.notes.append("no utils.rule_1..4 to observe")        # evidence-only monitors: a rewrite need not have these routines
+        return
     origs = [U.rule_1, U.rule_2, U.rule_3, U.rule_4]
 
     def rule_1_monitor(i, j, A):
